@@ -3,7 +3,7 @@ import ast
 
 from . import rule, info
 from ..program import AnalysisError, src, norm, ClassInfo
-from ..util import (polarity, branch_of, exclusive, is_name, calls_in, callee_qual, deref, ancestors, stmt_of, parent, handler_outcomes,
+from ..util import (choice_leaves, choice_values, polarity, branch_of, exclusive, is_name, calls_in, callee_qual, deref, ancestors, stmt_of, parent, handler_outcomes,
                     handler_covers, evaluator_calls, raised_class, is_subclass, fmt_witness)
 from .c03 import sentinel_of
 from .common import option_usage
@@ -101,7 +101,8 @@ def group_roles(ctx):
     p = ctx.program
     u = ctx.unit('grouping.GROUP')
     target, spec, scope = u.params[:3]
-    r = {'unit': u}
+    # type(spec) / id(spec): a named local when one exists, else the call itself (normal form)
+    r = {'unit': u, 'stype': 'type(%s)' % spec, 'sid': 'id(%s)' % spec}
     rec = None
     for n in u.own_nodes():
         if isinstance(n, ast.Assign) and is_name(n.targets[0]):
@@ -208,7 +209,8 @@ def sentinels(ctx):
            'a branch that answered STOP is retired under its key spec: %s' % [norm(x.ast) for x in retire])
     chk = [t for t in cfg.nodes if t.kind == 'test' and matches(t.ast, '%s.get(%s, None) is STOP' % (tree, ks))]
     ctx.ob(len(chk) == 1 and cfg.dominates(chk[0], keyev[0]), u, 'retired branches are skipped before their key is evaluated')
-    lst = [n for n in cfg.nodes if n.kind == 'stmt' and isinstance(n.ast, ast.Return) and sentinel_of(p, u, n.ast.value) == 'STOP']
+    lst = [n for n in cfg.nodes if n.kind == 'stmt' and isinstance(n.ast, ast.Return) and n.ast.value is not None
+           and any(sentinel_of(p, u, leaf) == 'STOP' for leaf in choice_leaves(n.ast.value))]
     ctx.ob(len(lst) >= 2, u, 'STOP is reported upwards: %s' % [norm(n.ast) for n in lst])
     ctx.floor(9)
 
@@ -234,12 +236,8 @@ def item_loop(ctx):
     ctx.ob(ok, u, 'STOP ends the run with the last real result: %s' % [norm(s_.body[0]) for s_ in stop])
     r = [n for n in u.node.body if isinstance(n, ast.Return)]
     ctx.ob(len(r) == 1 and is_name(r[0].value, ret), u, 'otherwise the last result is returned')
-    init = [n for n in ast.walk(u.node) if isinstance(n, ast.If) and matches(n.test, 'type(self.spec) in (dict, list)')]
-    ok = len(init) == 1 and matches(init[0].body[0], '%s = type(self.spec)()' % ret) and matches(init[0].orelse[0], '%s = None' % ret)
-    if not init:
-        # the same two-way choice as a conditional expression (the normal form)
-        ok = any(matches(n, '%s = type(self.spec)() if type(self.spec) in (dict, list) else None' % ret)
-                 for n in u.node.body if isinstance(n, ast.Assign))
+    cv = choice_values(cfg, cfg.node_of(lp), ret, 'type(self.spec) in (dict, list)', entry_only=True) if ret else None
+    ok = cv is not None and cv[0] == ['type(self.spec)()'] and cv[1] == ['None']
     ctx.ob(ok, u, "an empty input yields an empty container of the spec's type")
     ctx.floor(6)
 
